@@ -48,6 +48,7 @@ pub fn replay(prop: &str, case: &Value, verif_dir: &str) -> Option<Vec<Viol>> {
         "C05" => c05::replay(case),
         "C06" => golden::replay(case, verif_dir),
         "C07" => graph::replay_c07(case),
+        "C20" => graph::replay_c20(case),
         "C08" => sets::replay(8, case),
         "C09" => sets::replay(9, case),
         "C10" => sets::replay(10, case),
